@@ -331,7 +331,32 @@ def prio(index, rep):
             reorder.append(n.lineno)
         if isinstance(n, ast.Assign) and any(isinstance(t, ast.Subscript) and lst and norm_src(t.value) == lst for t in n.targets):
             reorder.append(n.lineno)
-    rep.check(not reorder, rule, "order preserved through the month loop", f"the list of animals is reordered in place (lines {reorder})", loc=loc(ANIM, main))
+    # ... nor by any routine the list is handed to (a helper that sorts / edits its argument in place changes the caller's list)
+    from .c13 import param_mutations
+    from .core import bind_args as _ba7
+    res7 = index.make_resolver([ANIM])
+    seen7 = set()
+
+    def callee_mutations(fn_, listname, depth=2):
+        out = []
+        for c in ast.walk(fn_):
+            if not isinstance(c, ast.Call):
+                continue
+            d = dotted(c.func) or ""
+            g = res7(d) or res7(d.split(".")[-1])
+            if g is None or g is fn_:
+                continue
+            for p_, a_ in _ba7(c, g, method=False).items():
+                if isinstance(a_, ast.Name) and a_.id == listname and (g.name, p_) not in seen7:
+                    seen7.add((g.name, p_))
+                    out += [f"{g.name}: {m_} (line {g.lineno})" for m_ in param_mutations(g, p_)]
+                    if depth > 1:
+                        out += callee_mutations(g, p_, depth - 1)
+        return out
+
+    reorder_c = callee_mutations(main, lst) if lst else []
+    rep.check(not reorder and not reorder_c, rule, "order preserved through the month loop",
+              f"the list of animals is reordered in place (lines {reorder}; in routines it is handed to: {reorder_c[:3]})", loc=loc(ANIM, main))
     rep.require_min(rule, 9)
 
 
